@@ -41,6 +41,11 @@ class C05(core.Prop):
                          ['dump', '1.0', 2], ['dump', '1.0', 3], ['commit', '1.0', [2, 3]], ['dump', '1.0', 4], ['commit', '1.0', [4]], ['publish', '1.1'],
                          ['dump', '1.1', 5], ['commit', '1.1', [5]]],
              'crash': False, 'long_lived': True},
+            # two long-lived writers on one release: each looks at the latest generation, then both commit
+            {'history': [['publish', '1.0'], ['dump', '1.0', 1], ['commit', '1.0', [1], 0], ['peek', '1.0', 0], ['peek', '1.0', 1], ['dump', '1.0', 2],
+                         ['commit', '1.0', [2], 1], ['dump', '1.0', 3], ['commit', '1.0', [3], 0], ['peek', '1.0', 1], ['dump', '1.0', 4], ['commit', '1.0', [4], 0],
+                         ['dump', '1.0', 5], ['commit', '1.0', [5], 1]],
+             'crash': False, 'long_lived': True},
         ]
 
     def cases(self, rng, tier):
@@ -73,6 +78,16 @@ class C05(core.Prop):
                         hist.append(['commit', a[1], a[2] + [900 + len(hist)]])   # refers to a state that was never staged
                         hist += [['dump', a[1], x] for x in a[2]]                 # ... so everything is staged again for the retry
                     hist.append(a)
+                if rng.random() < 0.5:
+                    # two writers, each holding its release handles: tag every commit with a writer and let them peek in between
+                    tagged = []
+                    for a in hist:
+                        if a[0] == 'commit':
+                            if rng.random() < 0.6:
+                                tagged.append(['peek', a[1], rng.randint(0, 1)])
+                            a = a + [rng.randint(0, 1)]
+                        tagged.append(a)
+                    hist = tagged
                 case = {'history': hist, 'crash': False, 'long_lived': True}
             out.append(case)
         return out
@@ -141,6 +156,9 @@ class C05(core.Prop):
                     gens[v] = []
                 if not step['ok'] and after != before:
                     return f'action {k}: a refused release changed the registry'
+            elif action[0] == 'peek':
+                if after != before:
+                    return f'action {k}: looking at a release changed what readers see'
             elif action[0] == 'dump':
                 staged.setdefault(action[1], set()).add(action[2])
             elif action[0] == 'commit':
